@@ -449,3 +449,24 @@ end
 
 end O2P.Gate
 
+/-! ### what a raw miner tree produces, executably (the hypothesis `t.sem s` of `post_process_sound` as a test) -/
+namespace O2P.Gate
+
+mutual
+def PTree.outs : PTree → List (List String)
+  | .leaf a => [[a]]
+  | .tau => [[]]
+  | .node .xor cs => (PTree.outsL cs).flatten
+  | .node .and cs => productAll (PTree.outsL cs)
+  | .node .or cs => (nonEmptySublists (PTree.outsL cs)).flatMap productAll
+  | .node .other _ => []
+def PTree.outsL : List PTree → List (List (List String))
+  | [] => []
+  | c :: cs => c.outs :: PTree.outsL cs
+end
+
+/-- the tree produces the set `s` (up to order and repetition) -/
+def PTree.produces (t : PTree) (s : List String) : Bool := t.outs.any fun o => sameS s o
+
+end O2P.Gate
+
